@@ -14,6 +14,7 @@ e = Engine(prog)
 if hasattr(mod, 'install'): mod.install(e)
 h = mod.HARNESS
 rp = replay.Replay(replay.build())
+e.native = rp
 work = [[]]; n = 0
 import collections
 kinds = collections.Counter()
